@@ -20,8 +20,9 @@ from harness import core
 from harness.props import c01, c05
 
 PROP = 'C06'
-UNITS = ['Persist']
-PROOFS = ['theories/Persist/Proofs.v']
+UNITS = ['Persist', 'Forwarder']
+PROOFS = ['theories/Persist/Proofs.v', 'theories/Persist/ForwarderProofs.v']
+HEADER_F = 'From PW Require Import Persist.Forwarder Persist.ForwarderRun.\nOpen Scope Z_scope.\n'
 
 
 def sq(x):
@@ -111,6 +112,106 @@ def thread_case(inputs, plan, pipe=None):
     return w, dead, inj.events
 
 
+class ScriptedSock:
+    """the data connection as the frontend thread sees it: the given bytes, then the peer is gone"""
+
+    def __init__(self, data):
+        self.data = data
+
+    def recv(self, n):
+        out, self.data = self.data[:n], self.data[n:]
+        return out
+
+    def close(self):
+        pass
+
+
+def forwarder_cases(res, tier, seed):
+    """the REAL PersistentRemoteWorker._fetch_results fed every prefix of what a remote child can send; compared with
+    Persist/Forwarder.v and judged by the property (prefix of the results, stream ends)"""
+    import struct
+    from pyworkers import remote_pickle
+    from pyworkers.persistent_remote import PersistentRemoteWorker
+    from pyworkers.utils import Pipe
+    terms, keep = [], []
+    w0 = PersistentRemoteWorker(sq, run=False)
+    wid = w0.id
+
+    def frame(obj):
+        d = remote_pickle.dumps(obj)
+        return struct.pack('!I', len(d)) + d
+
+    nmax = 3 if tier == 'quick' else 4
+    for n in range(0, nmax + 1):
+        vals = [10 * (i + 1) for i in range(n)]
+        for marker in (None, False, True):
+            for final in (False, True):
+                msgs = [('FRes', i + 1, v) for i, v in enumerate(vals)]
+                if marker is not None:
+                    msgs.append(('FEnd', n + (1 if marker else 0)))
+                if final:
+                    msgs.append(('FFinal',))
+                for cut in range(0, len(msgs) + 1):
+                    for garbage in ((False, True) if cut < len(msgs) else (False,)):
+                        stream = msgs[:cut]
+                        data = b''
+                        for m in stream:
+                            if m[0] == 'FRes':
+                                data += frame((m[1], True, m[2], wid))
+                            elif m[0] == 'FEnd':
+                                data += frame((m[1], False, None, wid))
+                            else:
+                                data += frame((False, None)) + frame('state')
+                        if garbage:
+                            data += frame((1, True, 0, wid))[:7]      # the connection dies in the middle of the next message
+                        w = PersistentRemoteWorker(sq, run=False, results_pipe=Pipe())
+                        w._socket = ScriptedSock(data)
+                        crashed = None
+                        try:
+                            w._fetch_results()
+                        except AssertionError:
+                            crashed = 'AssertionError'
+                        except BaseException as e:   # noqa
+                            crashed = type(e).__name__
+                        ep = w._results_pipe.parent_end
+                        out, closed = [], False
+                        while True:
+                            try:
+                                if not ep.poll(0):
+                                    break
+                                m = ep.recv()
+                            except (EOFError, OSError):
+                                closed = True
+                                break
+                            out.append(('ORes', m[2]) if m[1] else ('OEnd',))
+                        got = [m[1] for m in out if m[0] == 'ORes']
+                        ended = closed or any(m[0] == 'OEnd' for m in out)
+                        case = dict(kind='remote-forwarder', results=vals, child_marker=marker, final=final, arrived=cut, cut_inside_next=garbage)
+                        res.count('forwarder'); res.case(('fwd', n, marker, final, cut, garbage), nontrivial=cut < len(msgs) or marker is True,
+                                                         sample=dict(case, on_pipe=[list(m) for m in out], pipe_closed=closed, frontend=crashed or 'ended') if cut % 3 == 0 else None)
+                        if got != vals[:len(got)] or any(m[0] == 'ORes' for m in out[len(got):]):
+                            res.violation(dict(case, features=[]), f'the consumer of the results pipe sees {got}, not a prefix of {vals}')
+                        elif not ended:
+                            res.violation(dict(case, features=[]), f'neither an end marker nor EOF reaches the consumer of the results pipe (frontend thread: {crashed or "ended"})')
+                        for end in ('parent_end', 'child_end'):
+                            try:
+                                getattr(w._results_pipe, end).close()
+                            except Exception:
+                                pass
+                        cm = '; '.join({'FRes': lambda m: f'FRes {m[1]} {m[2]}', 'FEnd': lambda m: f'FEnd {m[1]}', 'FFinal': lambda m: 'FFinal'}[m[0]](m) for m in stream)
+                        om = '; '.join(f'ORes {m[1]}' if m[0] == 'ORes' else 'OEnd' for m in out)
+                        terms.append(f'check_forward [{cm}] [{om}] {"true" if closed else "false"}')
+                        keep.append((case, out, closed))
+    from pyworkers.worker import Worker
+    Worker._active_children[:] = []
+    bad, err = core.coq_eval_cases(PROP + 'f', HEADER_F, terms, per_file=400)
+    res.traces_validated += len(terms) - len(bad)
+    if err:
+        res.tie('correspondence:coq-eval', err)
+    for i in bad[:6]:
+        res.tie('correspondence:remote-forwarder', dict(case=keep[i][0], on_pipe=[list(m) for m in keep[i][1]], closed=keep[i][2], term=terms[i]))
+
+
 def main(tier, seed, replay=None):
     logging.disable(logging.CRITICAL)
     core.quiet_stderr(PROP)
@@ -122,7 +223,7 @@ def main(tier, seed, replay=None):
                 'thread, process and remote kinds. Non-trivial = a landing point or a kill; distinct = distinct (kind, inputs, landing point).')
     res.assumptions = ['EOF is delivered on a pipe once its last writer is gone (kernel)', 'line-level landing points; the positions inside one statement exist in the theorem only']
     res.trusted.append('hand-written interpreter Persist/Model.v (crash semantics); harness/props/c06.py')
-    core.prove(res, PROP, UNITS, PROOFS)
+    core.prove(res, PROP, UNITS, PROOFS, run_files=['theories/Persist/ForwarderRun.v'])
     sys.path.insert(0, core.REPO)
     from pyworkers.utils import Pipe
     known = lambda kf, case: bool(set(kf.get('domain_any_of', [])) & set(case.get('features', [])))   # noqa: E731
@@ -224,4 +325,5 @@ def main(tier, seed, replay=None):
                     res.violation(dict(kind=kind, how=how, features=[]), why, finding_matcher=known)
     finally:
         server.terminate(force=True)
+    forwarder_cases(res, tier, seed)
     return res.finish()
